@@ -39,7 +39,9 @@ import (
 	"net/http/httptest"
 	"os"
 	"strings"
+	"time"
 
+	"github.com/go-logr/logr"
 	admissionv1 "k8s.io/api/admission/v1"
 	corev1 "k8s.io/api/core/v1"
 	"k8s.io/apiextensions-apiserver/pkg/apis/apiextensions"
@@ -50,6 +52,7 @@ import (
 	"k8s.io/apimachinery/pkg/util/validation/field"
 	"k8s.io/utils/ptr"
 	"sigs.k8s.io/controller-runtime/pkg/healthz"
+	ctrllog "sigs.k8s.io/controller-runtime/pkg/log"
 
 	xpv1 "github.com/crossplane/crossplane-runtime/apis/common/v1"
 	xpcontroller "github.com/crossplane/crossplane-runtime/pkg/controller"
@@ -86,6 +89,7 @@ type input struct {
 	CStrat string   `json:"cstrat"`
 	XRS    string   `json:"xrs"`
 	CDS    string   `json:"cds"`
+	Res    string   `json:"res"` // r1: the patch belongs to the first resource (kind Thing), r2: to the second (kind Other)
 	// mode
 	Mode string `json:"mode"`
 	Feat string `json:"feat"`
@@ -112,7 +116,7 @@ var paths = map[string]string{
 	"str": "spec.str", "int": "spec.int", "num": "spec.num", "bool": "spec.bool", "obj": "spec.obj", "objk": "spec.obj.k",
 	"arr": "spec.arr", "arr0": "spec.arr[0]", "aobjv": "spec.aobj[0].v", "wild": "spec.aobj[*].v", "amax1": "spec.amax[1]", "amax2": "spec.amax[2]",
 	"map": "spec.map", "mapk": "spec.map[some.key]", "mapany": "spec.mapany", "mapanyk": "spec.mapany.k", "free": "spec.free", "freek": "spec.free.k.j",
-	"ios": "spec.ios", "xonly": "spec.xonly", "conly": "spec.conly",
+	"ios": "spec.ios", "xonly": "spec.xonly", "conly": "spec.conly", "oonly": "spec.oonly",
 	"nope": "spec.nope", "strx": "spec.str.x", "str0": "spec.str[0]", "obj0": "spec.obj[0]", "arrx": "spec.arr.x", "objnope": "spec.obj.nope",
 	"mname": "metadata.name", "mlabel": "metadata.labels[app]", "mann": "metadata.annotations[a.b/c]", "mbogus": "metadata.bogus",
 	"status": "status.phase", "bad": "spec[", "empty": "",
@@ -122,7 +126,7 @@ var paths = map[string]string{
 var declared = map[string]string{
 	"str": "string", "int": "integer", "num": "number", "bool": "boolean", "obj": "object", "objk": "string", "arr": "array", "arr0": "string",
 	"aobjv": "string", "amax1": "integer", "map": "object", "mapk": "string", "mapany": "object", "free": "object", "ios": "ios",
-	"xonly": "string", "conly": "string", "mname": "string", "mlabel": "string", "mann": "string", "status": "string",
+	"xonly": "string", "conly": "string", "oonly": "string", "mname": "string", "mlabel": "string", "mann": "string", "status": "string",
 	"mapanyk": "any", "freek": "any",
 }
 
@@ -167,6 +171,17 @@ const (
 
 func str(t string) extv1.JSONSchemaProps { return extv1.JSONSchemaProps{Type: t} }
 
+// sideField is the field only the schema of that kind declares.
+func sideField(kind string) string {
+	switch kind {
+	case xrKind:
+		return "xonly"
+	case otKind:
+		return "oonly"
+	}
+	return "conly"
+}
+
 // specProps is the field universe both kinds share; side is "xonly" or "conly".
 func specProps(side string) map[string]extv1.JSONSchemaProps {
 	return map[string]extv1.JSONSchemaProps{
@@ -196,42 +211,60 @@ func typedSchema(side string) *extv1.JSONSchemaProps {
 //	typed         the full structural schema above under version v1
 //	noschema      version v1 without a schema
 //	preserve      version v1: {type: object, x-kubernetes-preserve-unknown-fields: true}
-//	otherversion  the typed schema, but under version v2 only (the Composition refers to v1)
+//	twoversions   v1 typed and served, v2 (storage) preserve-unknown-fields: the schema is looked up by version name
+//	otherversion  the typed schema under v2 and (with one more property) under v3; the Composition refers to v1, which
+//	              the CRD does not have. (With a single version, or identical schemas, the internal CRD type carries
+//	              the schema at the top level and getSchemaForVersion returns it whatever the version asked for.)
 func crd(kind, variant string) *extv1.CustomResourceDefinition {
-	side := "conly"
-	if kind == xrKind {
-		side = "xonly"
-	}
+	side := sideField(kind)
 	plural := strings.ToLower(kind) + "s"
 	c := &extv1.CustomResourceDefinition{
 		TypeMeta:   metav1.TypeMeta{APIVersion: "apiextensions.k8s.io/v1", Kind: "CustomResourceDefinition"},
-		ObjectMeta: metav1.ObjectMeta{Name: plural + "." + group},
+		ObjectMeta: metav1.ObjectMeta{Name: plural + "." + group, Labels: map[string]string{"variant": variant}},
 		Spec: extv1.CustomResourceDefinitionSpec{Group: group, Scope: extv1.ClusterScoped,
 			Names: extv1.CustomResourceDefinitionNames{Kind: kind, ListKind: kind + "List", Plural: plural, Singular: strings.ToLower(kind)}},
 	}
-	ver := extv1.CustomResourceDefinitionVersion{Name: "v1", Served: true, Storage: true}
+	ver := func(name string, storage bool, sch *extv1.JSONSchemaProps) extv1.CustomResourceDefinitionVersion {
+		v := extv1.CustomResourceDefinitionVersion{Name: name, Served: true, Storage: storage}
+		if sch != nil {
+			v.Schema = &extv1.CustomResourceValidation{OpenAPIV3Schema: sch}
+		}
+		return v
+	}
+	preserve := &extv1.JSONSchemaProps{Type: "object", XPreserveUnknownFields: ptr.To(true)}
 	switch variant {
 	case "typed":
-		ver.Schema = &extv1.CustomResourceValidation{OpenAPIV3Schema: typedSchema(side)}
+		c.Spec.Versions = []extv1.CustomResourceDefinitionVersion{ver("v1", true, typedSchema(side))}
 	case "noschema":
+		c.Spec.Versions = []extv1.CustomResourceDefinitionVersion{ver("v1", true, nil)}
 	case "preserve":
-		ver.Schema = &extv1.CustomResourceValidation{OpenAPIV3Schema: &extv1.JSONSchemaProps{Type: "object", XPreserveUnknownFields: ptr.To(true)}}
+		c.Spec.Versions = []extv1.CustomResourceDefinitionVersion{ver("v1", true, preserve)}
+	case "twoversions":
+		c.Spec.Versions = []extv1.CustomResourceDefinitionVersion{ver("v2", true, preserve), ver("v1", false, typedSchema(side))}
 	case "otherversion":
-		ver.Name = "v2"
-		ver.Schema = &extv1.CustomResourceValidation{OpenAPIV3Schema: typedSchema(side)}
+		more := typedSchema(side)
+		more.Properties["extra"] = str("string")
+		c.Spec.Versions = []extv1.CustomResourceDefinitionVersion{ver("v2", true, typedSchema(side)), ver("v3", false, more)}
 	default:
 		panic("unknown schema variant " + variant)
 	}
-	c.Spec.Versions = []extv1.CustomResourceDefinitionVersion{ver}
 	return c
 }
 
+var internalCache = map[string]*apiextensions.CustomResourceDefinition{}
+
+// internalCRD converts a CRD the way the webhook does; every caller gets its own deep copy.
 func internalCRD(c *extv1.CustomResourceDefinition) apiextensions.CustomResourceDefinition {
-	out := apiextensions.CustomResourceDefinition{}
-	if err := extv1.Convert_v1_CustomResourceDefinition_To_apiextensions_CustomResourceDefinition(c.DeepCopy(), &out, nil); err != nil {
+	k := c.Name + "/" + c.Labels["variant"]
+	if cached, ok := internalCache[k]; ok {
+		return *cached.DeepCopy()
+	}
+	out := &apiextensions.CustomResourceDefinition{}
+	if err := extv1.Convert_v1_CustomResourceDefinition_To_apiextensions_CustomResourceDefinition(c.DeepCopy(), out, nil); err != nil {
 		panic(err)
 	}
-	return out
+	internalCache[k] = out
+	return *out.DeepCopy()
 }
 
 // --------------------------------------------- transforms (TransformMenu)
@@ -438,6 +471,11 @@ func patchComposition(in input) *v1.Composition {
 		r.Patches = []v1.Patch{p}
 	}
 	c.Spec.Resources = []v1.ComposedTemplate{r}
+	if in.Res == "r2" {
+		// the patch belongs to the second resource, of kind Other; the first one (Thing) carries no patch
+		r.Name, r.Base = ptr.To("r2"), base(otKind)
+		c.Spec.Resources = []v1.ComposedTemplate{{Name: ptr.To("r1"), Base: base(cdKind)}, r}
+	}
 	return c
 }
 
@@ -627,8 +665,20 @@ type crdMap = map[schema.GroupKind]apiextensions.CustomResourceDefinition
 
 func gk(kind string) schema.GroupKind { return schema.GroupKind{Group: group, Kind: kind} }
 
-func freshCRDs(xrs, cds string) crdMap {
-	return crdMap{gk(xrKind): internalCRD(crd(xrKind, xrs)), gk(cdKind): internalCRD(crd(cdKind, cds)), gk(otKind): internalCRD(crd(otKind, "typed"))}
+// crdSet: the schema variant cds applies to the kind of the resource that carries the patch (the other composed kind is typed)
+func crdSet(xrs, cds, res string) []*extv1.CustomResourceDefinition {
+	if res == "r2" {
+		return []*extv1.CustomResourceDefinition{crd(xrKind, xrs), crd(cdKind, "typed"), crd(otKind, cds)}
+	}
+	return []*extv1.CustomResourceDefinition{crd(xrKind, xrs), crd(cdKind, cds), crd(otKind, "typed")}
+}
+
+func freshCRDs(xrs, cds, res string) crdMap {
+	m := crdMap{}
+	for _, c := range crdSet(xrs, cds, res) {
+		m[gk(c.Spec.Names.Kind)] = internalCRD(c)
+	}
+	return m
 }
 
 // projErrs projects a validation result onto {o, acc, n, errs, dg}
@@ -665,12 +715,12 @@ func mustValidator(opts ...compval.ValidatorOption) *compval.Validator {
 // long-lived validators, one per pair of schema variants: their CRD map is shared by every vector of the run
 var shared = map[string]*compval.Validator{}
 
-func sharedValidator(xrs, cds string) *compval.Validator {
-	k := xrs + "/" + cds
+func sharedValidator(xrs, cds, res string) *compval.Validator {
+	k := xrs + "/" + cds + "/" + res
 	if v, ok := shared[k]; ok {
 		return v
 	}
-	v := mustValidator(compval.WithCRDGetterFromMap(freshCRDs(xrs, cds)))
+	v := mustValidator(compval.WithCRDGetterFromMap(freshCRDs(xrs, cds, res)))
 	shared[k] = v
 	return v
 }
@@ -694,6 +744,7 @@ type hook struct {
 	s       *simapi.Server
 	h       http.Handler
 	listErr bool // every List of the webhook's reader fails with an internal error
+	sig     string
 }
 
 var hooks = map[string]*hook{}
@@ -739,6 +790,14 @@ func crdKey(name string) simapi.Key {
 // setCRDs edits the CRDs the webhook's reader sees, in place.
 func (h *hook) setCRDs(crds []*extv1.CustomResourceDefinition) {
 	h.s.Log = nil // the call log is not used here; do not let it grow over the whole run
+	sig := ""
+	for _, c := range crds {
+		sig += c.Name + "/" + c.Labels["variant"] + ";"
+	}
+	if sig == h.sig {
+		return
+	}
+	h.sig = sig
 	for _, o := range h.s.All(schema.GroupKind{Group: "apiextensions.k8s.io", Kind: "CustomResourceDefinition"}) {
 		h.s.Remove(crdKey(o.GetName()))
 	}
@@ -754,7 +813,10 @@ func (h *hook) admit(comp *v1.Composition, op admissionv1.Operation) (map[string
 	o, pmsg := guard(func() {
 		rawObj, err := json.Marshal(comp)
 		if err != nil {
-			panic(err)
+			// a Composition that cannot be serialised (a base that is not JSON) never reaches a webhook
+			out["o"] = "unsendable"
+			msg = err.Error()
+			return
 		}
 		rq := &admissionv1.AdmissionRequest{
 			UID:       "req",
@@ -797,14 +859,13 @@ func (h *hook) admit(comp *v1.Composition, op admissionv1.Operation) (map[string
 	return out, msg
 }
 
+func init() { ctrllog.SetLogger(logr.Discard()) }
+
 // ------------------------------------------------------ the real runtime
 
 // conforming is an object of the kind that satisfies the typed schema and has a value at every valid key of the menu.
 func conforming(kind string) map[string]any {
-	side := "conly"
-	if kind == xrKind {
-		side = "xonly"
-	}
+	side := sideField(kind)
 	return map[string]any{"apiVersion": group + "/v1", "kind": kind,
 		"metadata": map[string]any{"name": strings.ToLower(kind) + "1", "labels": map[string]any{"app": "a"}, "annotations": map[string]any{"a.b/c": "z"}},
 		"spec": map[string]any{"str": "s", "int": int64(3), "num": 1.5, "bool": true, "obj": map[string]any{"k": "v"}, "arr": []any{"x", "y"},
@@ -871,11 +932,7 @@ func satisfies(sch *extv1.JSONSchemaProps, v any) bool {
 
 // conforms checks an object against the TYPED schema of its kind.
 func conforms(kind string, obj map[string]any) bool {
-	side := "conly"
-	if kind == xrKind {
-		side = "xonly"
-	}
-	sch := typedSchema(side)
+	sch := typedSchema(sideField(kind))
 	meta := extv1.JSONSchemaProps{Type: "object", XPreserveUnknownFields: ptr.To(true)}
 	sch.Properties["metadata"] = meta
 	return satisfies(sch, obj)
@@ -960,9 +1017,13 @@ func toXR(pt string) bool { return pt == "ToCompositeFieldPath" || pt == "Combin
 // source path (plus once with the source path absent).
 func runtimeSamples(in input, comp *v1.Composition) []any {
 	out := []any{}
-	srcKind, dstKind := xrKind, cdKind
+	composedKind, tmpl := cdKind, 0
+	if in.Res == "r2" {
+		composedKind, tmpl = otKind, 1
+	}
+	srcKind, dstKind := xrKind, composedKind
 	if toXR(in.PType) {
-		srcKind, dstKind = cdKind, xrKind
+		srcKind, dstKind = composedKind, xrKind
 	}
 	srcKeys := []string{in.From}
 	if in.CStrat != "none" {
@@ -996,6 +1057,10 @@ func runtimeSamples(in input, comp *v1.Composition) []any {
 			if err := psrc.DeleteField(pathOf(srcKeys[0])); err != nil {
 				continue
 			}
+			// deleting an array element moves the next one into its place: only a path that is really gone counts
+			if _, gerr := psrc.GetValue(pathOf(srcKeys[0])); !fieldpath.IsNotFound(gerr) {
+				continue
+			}
 		} else {
 			if err := psrc.SetValue(pathOf(srcKeys[0]), s.v); err != nil {
 				continue
@@ -1019,7 +1084,7 @@ func runtimeSamples(in input, comp *v1.Composition) []any {
 			if err != nil {
 				return
 			}
-			for _, p := range cts[0].Patches {
+			for _, p := range cts[tmpl].Patches {
 				if err = composite.Apply(p, xr, cd); err != nil {
 					return
 				}
@@ -1060,13 +1125,24 @@ func digest(x any) string {
 // readySamples runs the real readiness check on a conforming composed resource, once per sample value of the path.
 func readySamples(in input, comp *v1.Composition) []any {
 	out := []any{}
-	if in.Path == "empty" {
-		return out
+	type smp struct {
+		id string
+		v  any
 	}
-	for _, s := range samples(declared[in.Path]) {
+	list := []smp{}
+	if in.Path == "empty" {
+		list = append(list, smp{"conforming", nil}) // no field path: the conforming object as it is
+	} else {
+		for _, s := range samples(declared[in.Path]) {
+			list = append(list, smp{s.id, s.v})
+		}
+	}
+	for _, s := range list {
 		obj := conforming(cdKind)
-		if err := fieldpath.Pave(obj).SetValue(pathOf(in.Path), s.v); err != nil {
-			continue
+		if s.id != "conforming" {
+			if err := fieldpath.Pave(obj).SetValue(pathOf(in.Path), s.v); err != nil {
+				continue
+			}
 		}
 		cd := composed.New()
 		cd.SetUnstructuredContent(obj)
@@ -1121,8 +1197,17 @@ func connSamples(in input, comp *v1.Composition) []any {
 
 var modes = []string{"strict", "loose", "warn"}
 
+// wall time per stage, for the evidence file
+var spent = map[string]time.Duration{}
+
+func timed(stage string, fn func()) {
+	t := time.Now()
+	fn()
+	spent[stage] += time.Since(t)
+}
+
 // validate runs a Composition through every entry point with all CRDs present.
-func validateAll(comp *v1.Composition, xrs, cds string) (map[string]any, string) {
+func validateAll(comp *v1.Composition, xrs, cds, res string, allModes bool) (map[string]any, string) {
 	val := map[string]any{}
 	msgs := []string{}
 	note := func(m string) {
@@ -1131,27 +1216,35 @@ func validateAll(comp *v1.Composition, xrs, cds string) (map[string]any, string)
 		}
 	}
 	var m string
-	sv := sharedValidator(xrs, cds)
-	val["direct"], m = runValidator(sv, comp)
-	note(m)
-	val["again"], m = runValidator(sv, comp)
-	note(m)
-	val["fresh"], m = runValidator(mustValidator(compval.WithCRDGetterFromMap(freshCRDs(xrs, cds))), comp)
-	note(m)
-	val["nolog"], m = runValidator(mustValidator(compval.WithCRDGetterFromMap(freshCRDs(xrs, cds)), compval.WithoutLogicalValidation()), comp)
-	note(m)
-	var lerrs field.ErrorList
-	lo, lm := guard(func() { _, lerrs = comp.DeepCopy().Validate() })
-	note(lm)
-	val["logical"] = projErrs(lo, lerrs)
-	h := getHook("on")
-	h.setCRDs([]*extv1.CustomResourceDefinition{crd(xrKind, xrs), crd(cdKind, cds), crd(otKind, "typed")})
-	for _, md := range modes {
-		val[md], m = h.admit(withMode(comp, md), admissionv1.Create)
-		if md == "strict" {
-			note(m)
+	timed("validator", func() {
+		sv := sharedValidator(xrs, cds, res)
+		val["direct"], m = runValidator(sv, comp)
+		note(m)
+		val["again"], m = runValidator(sv, comp)
+		note(m)
+		val["fresh"], m = runValidator(mustValidator(compval.WithCRDGetterFromMap(freshCRDs(xrs, cds, res))), comp)
+		note(m)
+		val["nolog"], m = runValidator(mustValidator(compval.WithCRDGetterFromMap(freshCRDs(xrs, cds, res)), compval.WithoutLogicalValidation()), comp)
+		note(m)
+		var lerrs field.ErrorList
+		lo, lm := guard(func() { _, lerrs = comp.DeepCopy().Validate() })
+		note(lm)
+		val["logical"] = projErrs(lo, lerrs)
+	})
+	timed("webhook", func() {
+		h := getHook("on")
+		h.setCRDs(crdSet(xrs, cds, res))
+		for _, md := range modes {
+			if md != "strict" && !allModes {
+				val[md] = map[string]any{"o": "skipped", "allowed": false, "code": 0, "nwarn": 0, "reason": "", "ncause": 0}
+				continue
+			}
+			val[md], m = h.admit(withMode(comp, md), admissionv1.Create)
+			if md == "strict" {
+				note(m)
+			}
 		}
-	}
+	})
 	return val, strings.Join(msgs, " || ")
 }
 
@@ -1163,7 +1256,7 @@ func runVector(in input) (map[string]any, string) {
 	case "patch":
 		comp = patchComposition(in)
 		xrs, cds = in.XRS, in.CDS
-		out["rt"] = runtimeSamples(in, comp)
+		timed("runtime", func() { out["rt"] = runtimeSamples(in, comp) })
 	case "ready":
 		comp = readyComposition(in)
 		cds = in.CDS
@@ -1184,7 +1277,8 @@ func runVector(in input) (map[string]any, string) {
 	default:
 		panic("unknown family " + in.Fam)
 	}
-	val, msg := validateAll(comp, xrs, cds)
+	// the bulk of the type matrix (chains of two transforms) is sent to the webhook in strict mode only
+	val, msg := validateAll(comp, xrs, cds, in.Res, !(in.Fam == "patch" && len(in.Chain) >= 2))
 	out["val"] = val
 	out["hook"] = map[string]any{"o": "none", "allowed": false, "code": 0, "nwarn": 0, "reason": "", "ncause": 0}
 	out["hookup"] = out["hook"]
@@ -1236,6 +1330,7 @@ type summary struct {
 	Outcomes  map[string]int `json:"outcomes"`
 	Panics    []any          `json:"panics"`
 	Samples   []any          `json:"samples"`
+	StageMs   map[string]int `json:"stage_ms"`
 }
 
 func main() {
@@ -1299,6 +1394,10 @@ func main() {
 		}
 	}
 	sum.Events = tw.Lines
+	sum.StageMs = map[string]int{}
+	for k, d := range spent {
+		sum.StageMs[k] = int(d.Milliseconds())
+	}
 	if err := tw.Close(); err != nil {
 		fmt.Fprintln(os.Stderr, err)
 		os.Exit(2)
